@@ -1,6 +1,6 @@
 (* Correspondence evaluation for scenario "dirs": the model of Dir/Plain.v against observations
    of directory.UnixFSBasicDir / PathedPBNode made by the harness. *)
-From UV Require Import Dir.Plain.
+From UV Require Export Dir.Plain.
 
 Record dir_case := mk_dir_case {
   dc_links : list (option bytes * N);   (* name, target id, in the order of the reified node *)
